@@ -834,6 +834,13 @@ class NPProxy:
             kind = np.dtype(dtype).kind if dtype is not None and np.dtype(dtype).kind in 'fc' else getattr(a, 'ckind', None)
             if kind is None:
                 kind = 'c' if any(isinstance(v, (complex, np.complexfloating, SC)) for v in a.ravel()) else 'f'
+            if kind == 'f' and any(isinstance(v, (complex, np.complexfloating, SC)) for v in a.ravel()):
+                # numpy semantics of casting complex to real: the imaginary part is discarded (ComplexWarning)
+                s._hit('complex_to_real_cast')
+                r = np.empty(a.size, dtype=object)
+                for i, v in enumerate(a.ravel()):
+                    r[i] = _re_im(v)[0] if isinstance(v, (complex, np.complexfloating, SC)) else v
+                a = r.reshape(a.shape)
             return owned_copy(a, kind)
         if (dtype is not None and np.dtype(dtype).kind in 'fc') or (dtype is None and a.dtype.kind in 'fc'):
             r = np.array(x, dtype=dtype)     # float buffers are object arrays in a symbolic session
